@@ -261,7 +261,9 @@ def rgbToHslMask (c : V3 α) : V3 α :=
   let lightness := 0.5 * sum
   let chroma := mx - mn
   -- `(1 − max) + (1 − min)` instead of `2 − sum` (repair 4f36dd5: `2 − sum` rounds to 0 next to white)
-  let saturation := lazySelect (eq mn mx) 0.0 (chroma / select (gt sum 1.0) ((1.0 - mx) + (1.0 - mn)) sum)
+  -- saturation 0 also when the selected divisor is 0 (repair c404fc5: out-of-gamut `max = 1 + δ`, `min = 1 − δ`)
+  let divisor := select (gt sum 1.0) ((1.0 - mx) + (1.0 - mn)) sum
+  let saturation := lazySelect (Mask.or (eq mn mx) (eq divisor 0.0)) 0.0 (chroma / divisor)
   ⟨maskHue red green blue mx chroma, saturation, lightness⟩
 
 /-- `impl_clamp!` for `Rgb` on a mask-generic component: every channel `crate::clamp(c, 0, 1)` (wide: `min` then `max`) -/
@@ -301,7 +303,9 @@ def hslOfParts (mx mn sep coeff : α) : V3 α :=
   if ¬ eqv mx mn then
     let d := mx - mn
     -- `inverted_sum = (1 − max) + (1 − min)` instead of `2 − sum` (repair 4f36dd5)
-    let s := if 1.0 < sum then d / ((1.0 - mx) + (1.0 - mn)) else d / sum
+    -- saturation 0 when the selected divisor is 0 (repair c404fc5)
+    let divisor := if 1.0 < sum then (1.0 - mx) + (1.0 - mn) else sum
+    let s := if eqv divisor 0.0 then 0.0 else d / divisor
     ⟨(sep / d + coeff) * 60.0, s, l⟩
   else ⟨0.0, 0.0, l⟩
 
